@@ -162,7 +162,7 @@ def oracle(c, o):
         else:
             fin = ['raised', v]
             break
-    sa = o.get('cancelled_after', c['stop_after'])
+    sa = o.get('cancelled_after', None if c['stop_kind'] == 'cancel' else c['stop_after'])
     if sa is not None and (len(data) >= sa or 'cancelled_after' in o):
         data, fin = data[:sa], ['broke']
     if o['received'] != data or oc != fin:
@@ -178,7 +178,7 @@ def coq_case(r):
     c, o = r['cfg'], r['obs']
     if o.get('crash') or o.get('hung') or not o.get('outcome') or o['outcome'][0] == 'other':
         return '(3%nat, [], None, [7%Z], 0%Z)'      # judged by the oracle
-    sa = o['cancelled_after'] if 'cancelled_after' in o else c['stop_after']
+    sa = o['cancelled_after'] if 'cancelled_after' in o else (None if c['stop_kind'] == 'cancel' else c['stop_after'])
     return f"({cnat(c['slots'])}, {coq_src(c['src'])}, {copt(sa, cnat)}, {clist(o['received'], cz)}, {cz(outcome_code(o['outcome']))})"
 
 
